@@ -91,10 +91,14 @@ class Ctx:
         self.decisions = []
         self.solver = z3.Solver()
         self.solver.set("rlimit", run.rlimit)
+        # wall-clock safety net far above any normal query (milliseconds): z3's sequence solver does not account its search for long
+        # string models (len(s) >= 65536) to rlimit and would run for ever; a timeout gives `unknown` (-> cvc5 / UNDECIDED), never a verdict
+        self.solver.set("timeout", int(os.environ.get("PYVC_Z3_TIMEOUT_MS", "60000")))
         self.solver.set("random_seed", 0)
         # quantifier-free shadow of the path condition: used only for branch feasibility (over-approximation)
         self.fsolver = z3.Solver()
         self.fsolver.set("rlimit", 5000000)
+        self.fsolver.set("timeout", int(os.environ.get("PYVC_Z3_BRANCH_TIMEOUT_MS", "15000")))  # unknown counts as feasible
         self.fsolver.set("random_seed", 0)
         self.counter = {}
         self.ghost = {}
